@@ -580,11 +580,25 @@ def setup():
     rc, out = lake_build([])
     print(out[-2000:])
     ok &= rc == 0
-    props = sorted(f[:-3] for f in os.listdir(os.path.join(VERIF, "tools", "props"))
-                   if re.match(r"c\d+\.py$", f))
+    # only what MANIFEST.json claims is built here; unclaimed work in progress cannot break setup
+    try:
+        man = json.load(open(os.path.join(VERIF, "MANIFEST.json")))
+        props = sorted(c["property_id"].lower() for c in man.get("checks", []))
+    except Exception:
+        props = []
     drivers, need = set(), set()
     for p in props:
-        mod = load_module(p.upper())
+        try:
+            mod = load_module(p.upper())
+        except Exception as e:
+            print(f"setup: cannot load props module for {p}: {e!r}")
+            ok = False
+            continue
+        if hasattr(mod, "pre_build") and not getattr(mod, "PRE_BUILD_NEEDS_HARNESS", False):
+            try:
+                mod.pre_build(Ctx(mod, "quick", DEFAULT_SEED))
+            except Exception as e:
+                print(f"setup: pre_build of {p} raised {e!r} (the check itself will report it)")
         drivers.add(mod.DRIVER)
         drivers.update(getattr(mod, "EXTRA_DRIVERS", []))
         need.add((mod.HARNESS["bin"], mod.HARNESS.get("features", "default")))
